@@ -1,6 +1,6 @@
 (* Lemmas about Model/RegressObj.v: the trace of the regressors' fit loop (which pass it stops in, what n_iterations_ and
    norm_W_ are), the regressor and CP_PLSR objects under arbitrary sequences of calls. *)
-From Coq Require Import List Arith Lia Bool Ring.
+From Coq Require Import List Arith Lia Bool Ring Permutation.
 From TLV Require Import Base.Shape Base.PyList Base.Tensor Base.BigSum Base.Ops Model.Base Proofs.BaseProofs Model.Regress
   Proofs.RegressProofs Proofs.RegressProofsPlsr Model.RegressObj.
 Import ListNotations.
@@ -117,6 +117,15 @@ Proof.
   destruct T as (H1 & _ & _ & _ & _ & _ & H6).
   destruct (Nat.eq_dec (rf_n_iterations r) n_iter) as [|Hne]; [assumption|].
   destruct (H6 ltac:(lia)) as [H3 Hs]. rewrite Hno in Hs by lia. discriminate.
+Qed.
+
+(* norm_W_[-1] is the norm of the stored weight_tensor_ (the tensor of the last executed pass) *)
+Corollary reg_fit_last_norm n_iter r d : reg_fit_full sweep rebuild nrm small n_iter w0 = Ok r ->
+  last (rf_norm_W r) d = nrm (r_weight_tensor (rf_stored r)) /\ length (rf_norm_W r) = rf_n_iterations r.
+Proof.
+  intros H. pose proof (reg_fit_trace n_iter r H) as T. cbv zeta in T.
+  destruct T as (H1 & _ & Hw & _ & Hn & _). rewrite Hn, Hw, map_length, seq_length. split; [|reflexivity].
+  destruct (rf_n_iterations r) as [|k]; [lia|]. rewrite seq_S, map_app. cbn [map]. rewrite last_last. reflexivity.
 Qed.
 End TraceP.
 
@@ -545,3 +554,66 @@ Proof.
     cbn [nth]. rewrite nth_B_zero by reflexivity. ring.
 Qed.
 End PlsrObjRing.
+
+(* ------------------------------------------------------------------ sample permutation at the level of the entry point *)
+Section PlsrEntryPerm.
+Context {F : Type} (Op : fops F).
+Lemma as_matrix_perm p (Y : tensor F) n : shape Y = [n] ->
+  as_matrix (perm_samples Op p Y) = perm_samples Op p (as_matrix Y).
+Proof.
+  intros H. unfold as_matrix, perm_samples, tabulate. cbn [shape data]. rewrite !H. cbn [shape data].
+  f_equal. cbn [prod fold_right]. rewrite !Nat.mul_1_r.
+  apply map_ext. intros k. unfold Regress.tget, get. cbn [shape data unravel ravel prod fold_right hd tl].
+  rewrite ?H. cbn [ravel prod fold_right]. f_equal.
+Qed.
+
+Hypothesis Rth : ring_theory (f0 Op) (f1 Op) (fadd Op) (fmul Op) (fsub Op) (fopp Op) (@eq F).
+Variable sqrtF : F -> F.
+Variable init : tensor F -> list (tensor F).
+Variable ne_solve : list (list F) -> list F -> list F.
+Variables (p : list nat) (n : nat).
+Hypothesis Hp : Permutation p (seq 0 n).
+Notation fit_entry := (plsr_fit_entry Op sqrtF init ne_solve).
+Notation perm := (perm_samples Op p).
+
+(* CP_PLSR().fit(X[p], Y[p]) at the level of the entry point (validation, matrix or vector Y): accepted iff fit(X, Y) is, same
+   recorded shapes, means, loadings, coefficients and predictions, consistently re-ordered X and Y scores *)
+Theorem plsr_entry_perm prm X Y sx a : shape X = n :: sx ->
+  (shape Y = [n] \/ exists m, shape Y = [n; m] /\ 0 < m) ->
+  fit_entry prm X Y = FitOk a ->
+  exists a', fit_entry prm (perm X) (perm Y) = FitOk a' /\
+    a_xshape a' = a_xshape a /\ a_yshape a' = a_yshape a /\
+    X_mean_ (a_fit a') = X_mean_ (a_fit a) /\ Y_mean_ (a_fit a') = Y_mean_ (a_fit a) /\
+    loadings (a_fit a') = loadings (a_fit a) /\
+    map (c_yload (F:=F)) (comps (a_fit a')) = map (c_yload (F:=F)) (comps (a_fit a)) /\
+    map (c_B (F:=F)) (comps (a_fit a')) = map (c_B (F:=F)) (comps (a_fit a)) /\
+    fitted_scores (a_fit a') = map (pick Op n p) (fitted_scores (a_fit a)) /\
+    map (c_yscore (F:=F)) (comps (a_fit a')) = map (pick Op n p) (map (c_yscore (F:=F)) (comps (a_fit a))) /\
+    forall q Xn, plsr_predict_entry Op q a' Xn = plsr_predict_entry Op q a Xn.
+Proof.
+  intros HX HY H.
+  pose proof (fit_entry_ok Op sqrtF init ne_solve _ _ _ _ H) as K. cbv zeta in K. destruct K as (Hx & Hy & Hfit & _ & Hw & _).
+  assert (EA : as_matrix (perm Y) = perm (as_matrix Y) /\ exists m, shape (as_matrix Y) = [n; m] /\ 0 < m).
+  { destruct HY as [HY|(m & HY & Hm)].
+    - split; [exact (as_matrix_perm p Y n HY)|]. exists 1. unfold as_matrix. rewrite HY. cbn [shape]. auto.
+    - assert (E1 : as_matrix Y = Y) by (unfold as_matrix; now rewrite HY).
+      assert (E2 : as_matrix (perm Y) = perm Y) by (unfold as_matrix; change (shape (perm Y)) with (shape Y); now rewrite HY).
+      rewrite E1, E2. split; [reflexivity|]. exists m. auto. }
+  destruct EA as (EA & m & HYm & Hm).
+  destruct (plsr_fit_perm_equivariance Op Rth sqrtF init ne_solve (pp_tol prm) p n Hp (pp_niter prm) (pp_ncomp prm) X (as_matrix Y) sx m (a_fit a) HX HYm Hm Hfit)
+    as (r' & Hr' & E1 & E2 & E3 & E4 & E5 & E6 & E7 & E8).
+  exists (mkPattrs (shape X) (shape (as_matrix Y)) r').
+  split.
+  - unfold RegressObj.plsr_fit_entry in *. unfold ndim in *.
+    change (shape (perm X)) with (shape X). change (shape (perm Y)) with (shape Y).
+    destruct (shape X) as [|nx sx0]; [discriminate|]. destruct (shape Y) as [|ny sy0]; [discriminate|].
+    destruct (negb (nx =? ny)); [discriminate|]. destruct (length (nx :: sx0) <? 2); [discriminate|].
+    destruct (negb ((length (ny :: sy0) =? 1) || (length (ny :: sy0) =? 2))); [discriminate|].
+    rewrite EA, Hr'. reflexivity.
+  - cbn [a_xshape a_yshape a_fit]. rewrite Hx, Hy. repeat split; auto.
+    intros q Xn. unfold plsr_predict_entry, fitted_width. cbn [a_xshape a_fit]. rewrite Hx.
+    assert (EL : length (comps r') = length (comps (a_fit a))).
+    { rewrite <- (map_length (c_B (F:=F)) (comps r')), E5, map_length. reflexivity. }
+    rewrite EL, E8. reflexivity.
+Qed.
+End PlsrEntryPerm.
